@@ -88,6 +88,11 @@ func c19Values(n int, kinds int) []interface{} {
 	return vals
 }
 
+// c19Nulls: the aggregated rows come from V().outNull() instead of V(): every data
+// vertex is reached from a source vertex of its own, and every vertex without an
+// outgoing edge (the data vertices themselves) contributes a row without an element.
+var c19Nulls = false
+
 func c19Graph(vals []interface{}) *vGraph {
 	g := &vGraph{honourLoad: true}
 	for i, v := range vals {
@@ -97,12 +102,25 @@ func c19Graph(vals []interface{}) *vGraph {
 		}
 		g.vs = append(g.vs, &gdbi.Vertex{ID: "v" + string(rune('0'+i)), Label: "L", Data: data, Loaded: true})
 	}
+	if c19Nulls {
+		// load elision of the step before aggregate() is C02's subject (listed finding there)
+		g.honourLoad = false
+		for i := range vals {
+			id := string(rune('0' + i))
+			g.vs = append(g.vs, &gdbi.Vertex{ID: "s" + id, Label: "S", Data: map[string]interface{}{}, Loaded: true})
+			g.es = append(g.es, &gdbi.Edge{ID: "e" + id, From: "s" + id, To: "v" + id, Label: "E", Data: map[string]interface{}{}, Loaded: true})
+		}
+	}
 	g.compiler = func(g *vGraph) gdbi.Compiler { return NewCompiler(g, IndexStartOptimize) }
 	return g
 }
 
 func c19Run(g *vGraph, aggs ...*gripql.Aggregate) ([]c19Row, bool) {
-	stmts := []*gripql.GraphStatement{sV(), {Statement: &gripql.GraphStatement_Aggregate{Aggregate: &gripql.Aggregations{Aggregations: aggs}}}}
+	stmts := []*gripql.GraphStatement{sV()}
+	if c19Nulls {
+		stmts = append(stmts, &gripql.GraphStatement{Statement: &gripql.GraphStatement_OutNull{OutNull: vList()}})
+	}
+	stmts = append(stmts, &gripql.GraphStatement{Statement: &gripql.GraphStatement_Aggregate{Aggregate: &gripql.Aggregations{Aggregations: aggs}}})
 	pipe, err := g.Compiler().Compile(stmts, nil)
 	if err != nil {
 		return nil, false
@@ -256,7 +274,15 @@ func VerifH_C19_aggregate() {
 	if kind == 1 {
 		size = uint32(vChoice("size", 3)) // 0 = unlimited
 	}
-	rows, ok := c19Run(c19Graph(vals), c19Agg("a", kind, size))
+	// rows without an element (outNull) are rows too: they count, and they carry no field
+	c19Nulls = vChoice("nulls", 2) == 1
+	graphVals := vals
+	if c19Nulls {
+		for range graphVals {
+			vals = append(vals, nil)
+		}
+	}
+	rows, ok := c19Run(c19Graph(graphVals), c19Agg("a", kind, size))
 	vAssert("C19.compiles", ok)
 	for _, r := range rows {
 		vAssert("C19.rows-are-named", r.name == "a")
@@ -265,7 +291,7 @@ func VerifH_C19_aggregate() {
 	// the same aggregation next to another one returns the same rows
 	if vChoice("second", 2) == 1 {
 		k2 := vChoice("agg2", 4)
-		both, ok2 := c19Run(c19Graph(vals), c19Agg("a", kind, size), c19Agg("b", k2, 0))
+		both, ok2 := c19Run(c19Graph(graphVals), c19Agg("a", kind, size), c19Agg("b", k2, 0))
 		vAssert("C19.compiles", ok2)
 		c19CheckOne(kind, size, c19Named(both, "a"), vals)
 		c19CheckOne(k2, 0, c19Named(both, "b"), vals)
@@ -296,6 +322,7 @@ func VerifH_C19_histogram() {
 			nonNumeric = true
 		}
 	}
+	c19Nulls = false
 	interval := uint32(1 + vChoice("interval", 3))
 	a := &gripql.Aggregate{Name: "h", Aggregation: &gripql.Aggregate_Histogram{Histogram: &gripql.HistogramAggregation{Field: "x", Interval: interval}}}
 	vKnownFor("C19/histogram-counts-non-numeric-as-zero", nonNumeric, "C19.hist.sum,C19.hist.covers")
